@@ -197,10 +197,19 @@ func c08Run(r *kit.Run, idx int64, rng *rand.Rand) {
 	nstatic := rng.IntN(4)
 	nlate := rng.IntN(3)
 	nleave := rng.IntN(2)
+	// Unsubscribe of a channel that is not (or no longer) subscribed is a
+	// no-op: a third of the scenarios repeat Unsubscribe calls (an explicit
+	// one plus a deferred one) and unsubscribe channels the broker never saw
+	redundant := 0
+	if rng.IntN(3) == 0 {
+		redundant = 1 + rng.IntN(3)
+		nleave = 1 + rng.IntN(2)
+	}
+	strangers := make([]int64, redundant) // publication counts at which a stranger channel is unsubscribed
 	if nstatic+nlate == 0 {
 		nstatic = 1
 	}
-	desc := map[string]any{"config": cfg, "publishers": npub, "messages_per_publisher": nmsg, "static_subscribers": nstatic, "late_joiners": nlate, "early_leavers": nleave, "gomaxprocs": procs}
+	desc := map[string]any{"config": cfg, "publishers": npub, "messages_per_publisher": nmsg, "static_subscribers": nstatic, "late_joiners": nlate, "early_leavers": nleave, "redundant_unsubscribes": redundant, "gomaxprocs": procs}
 	r.Eval()
 	r.Current(idx, fmt.Sprintf("C08 %+v", desc))
 	t0 := time.Now()
@@ -292,6 +301,21 @@ func c08Run(r *kit.Run, idx int64, rng *rand.Rand) {
 				kit.WaitUntil(c08Watchdog, func() bool { return published.Load() >= at })
 				s.unsubCall = kit.Stamp()
 				h.b.Unsubscribe(ctx, s.ch)
+				for k := 0; k < redundant; k++ {
+					h.b.Unsubscribe(ctx, s.ch)
+				}
+			}()
+		}
+		for k := range strangers {
+			strangers[k] = rng.Int64N(total + 1)
+		}
+		for _, at := range strangers {
+			at := at
+			mwg.Add(1)
+			go func() {
+				defer mwg.Done()
+				kit.WaitUntil(c08Watchdog, func() bool { return published.Load() >= at })
+				h.b.Unsubscribe(ctx, make(chan uint32))
 			}()
 		}
 		pd := make(chan struct{})
